@@ -216,6 +216,11 @@ class Two(Packet):
             if w[1] not in ALLOWED_ATTRS:
                 failures.append(dict(kind='oracle', sig='field-write', what=f"unpack/pack/construct wrote attribute {w[1]!r} on a {w[0]} field object shared by all packets of the class",
                                      classes=src))
+        sc = gres.get('scheduled') or dict(n=0, bad=[])
+        dist['scheduled_histories'] = dist.get('scheduled_histories', 0) + sc['n']
+        for b in sc['bad']:
+            failures.append(dict(kind='oracle', sig='thread-schedule', what=f"the same history with every packet owned by its own thread (operations handed over one at a time) differs at step {b['step']} from the single-threaded run",
+                                 classes=src, history=hs[b['history']], detail=b))
         for h, rep in zip(hs, gres['reports']):
             dist['histories'] += 1
             dist['steps'] += len(h)
